@@ -58,6 +58,12 @@ Size- / value-dependent mutations (scratch copies /var/tmp/mut_strong1_<N>), all
   M4  keyword.normalize truncates float keywords to int
   M6  BaseIndexMixin.docids drops not_indexed once more than 150 documents are indexed
   M12 docids() cached on (indexed_count, not_indexed_count)
+Round 4: the field kind also draws from the `X+none` pools of props/c01.py (24% of the field cases; the VALUE None
+- attribute present and None - is used by a third of the value-carrying operations there: 2100 index operations to or
+from the value None per quick run).  document_repr(d) with the implicit default None cannot tell "value None" from
+"unknown" (it returns None for both), so documents whose value is None are asked with an explicit default.  Seeded
+C06_G (unindex_doc reads `pop(docid, None)` and returns on None) was missed before and is caught now; mutation C of
+props/c01.py (index_doc tests `rev_index.get(docid) is not None`) is caught here too.
 `BaseIndexMixin.reindex_doc` without its unindex_doc is an equivalent mutant for these three classes (their
 index_doc handles a known id itself); the three classes override reindex_doc by index_doc.
 """
@@ -76,7 +82,8 @@ RULE = ("histories of index/reindex/unindex+index/unindex/reset (keyword, facet:
         "ends, four pipelines, DICT_CUTOFF 2/3/default) incl. re-indexing identical content (same list, reordered, with duplicates), "
         "value <-> no value alternation, empty keyword/path lists on known and unknown ids, paths matching "
         "no configured facet, unindexing unknown ids, reset in the middle, both BTrees families, attribute and "
-        "callable discriminators, list, tuple and set values, the value pools of C01/C02 (int, str incl. '', ints/"
+        "callable discriminators, list, tuple and set values, the value pools of C01/C02 (field: 24% with the VALUE None as "
+        "lowest value; int, str incl. '', ints/"
         "floats/bools mixed with 1 == 1.0 == True as one value, tuples, bytes, 120-value pools); bulk modes (about "
         "12% of the field/keyword/facet cases): 70-400 documents with one posting of 65-400 docids or 35-110 "
         "distinct values, optionally 121-199 documents without a value, a drain of the big posting back to 58-66 "
